@@ -1151,11 +1151,18 @@ func main() {
 			continue
 		}
 		bursts++
+		wedged := false
 		for _, res := range x.do(job{Cfg: c, Hist: []string{"burst"}}) {
 			if res.Viol != nil {
 				x.violCnt[res.Viol.Key]++
 				x.report(c, []string{"burst"}, res.Viol)
+				wedged = wedged || strings.HasPrefix(res.Viol.Key, "worker-died")
 			}
+		}
+		if wedged {
+			// a store that hangs in a burst costs a full watchdog period per execution (and two more
+			// to confirm): one configuration is enough to report it
+			break
 		}
 	}
 	x.exploreAll(ss2, samples)
